@@ -42,7 +42,9 @@ def run_replay(prop, hints, out_path, unit=None):
     fam = P.PROPS[prop].get("replay")
     if fam is None:
         return None
-    script = "ctxfam.py" if fam == "ctx" else "bindfam.py" if fam == "bind" else ("invfam.py" if (unit in P.INV_UNITS or fam == "inv") else "callfam.py")
+    if unit in getattr(P, "DEFN_UNITS", ()) or fam == "defn":
+        fam = "defn"
+    script = "defnfam.py" if fam == "defn" else "ctxfam.py" if fam == "ctx" else "bindfam.py" if fam == "bind" else ("invfam.py" if (unit in P.INV_UNITS or fam == "inv") else "callfam.py")
     env = dict(os.environ, PYTHONPATH=REPO)
     cmd = ["/venv/bin/python", os.path.join(HERE, "replay", script), "--search", "--hints", ",".join(hints), "--out", out_path]
     try:
@@ -129,7 +131,7 @@ def main(argv):
         statuses = {r["status"] for _, _, r in items}
         hints = next((h for pat, h in P.REPLAY_HINTS if pat in gname), []) + cfg.get("hints", [])
         uname = items[0][0].spec.name()
-        key = tuple(hints) + (uname in P.INV_UNITS,)
+        key = tuple(hints) + (uname in P.INV_UNITS, uname in P.DEFN_UNITS)
         if key not in replay_cache:
             h = hashlib.sha256((prop + gname).encode()).hexdigest()[:10]
             replay_cache[key] = (os.path.join("replays", "%s-%s.json" % (prop, h)), None)
